@@ -510,8 +510,12 @@ impl Check for C18 {
         let target = (v.plan.seed % 256) as u8;
         vd.class = hash_of(&(g.announce.clone(), ih.contains(&target), target, v.plan.own_id.clone()));
         let mut ver = crate::oracles_wire::Verified::start(v);
+        let mut last_snap: Option<world::Snap> = None;
         for e in &v.out.entries {
             ver.on_event(v, &e.ev);
+            if let Ev::Snapshot(sn) = &e.ev {
+                last_snap = Some(sn.clone());
+            }
             if let Ev::Announce { url, .. } = &e.ev {
                 vd.nontrivial = true;
                 if ih.contains(&target) {
@@ -565,7 +569,13 @@ impl Check for C18 {
                 // the total on the first announce; on a re-announce either the total or the bytes
                 // really left (both readings of "bytes left" are accepted)
                 let stored: u64 = (0..v.out.torrent.pieces()).filter(|i| ver.set.contains(i)).map(|i| v.out.torrent.piece_len(i) as u64).sum();
-                let ok_left = [g.total(), g.total() - stored].iter().any(|x| get("left") == Some(x.to_string()));
+                // (a piece written a moment ago may not be counted by the manager yet: what its own
+                // status vector says is owned is a third acceptable reading)
+                let counted: u64 = last_snap
+                    .as_ref()
+                    .map(|s: &world::Snap| s.status.iter().enumerate().filter(|(_, st)| **st == -1).map(|(i, _)| v.out.torrent.piece_len(i) as u64).sum())
+                    .unwrap_or(0);
+                let ok_left = [g.total(), g.total() - stored, g.total() - counted.min(g.total())].iter().any(|x| get("left") == Some(x.to_string()));
                 if !ok_left {
                     vd.fail("C18", "C18.left", format!("left {:?}, expected {} (total) or {} (remaining)", get("left"), g.total(), g.total() - stored), e.seq);
                 }
